@@ -718,8 +718,13 @@ impl MemberOf {
             post.attribute_equality(Attribute::Class, &EntryClass::Group.into())
                 || pre.attribute_equality(Attribute::Class, &EntryClass::Group.into())
         }) {
-            let pre_member = pre.get_ava_refer(Attribute::Member);
-            let post_member = post.get_ava_refer(Attribute::Member);
+            // A recycled or tombstoned group confers no membership. Masking it here means
+            // that when a group is revived (or recycled by replication) every member is
+            // treated as affected, rather than none because the member list did not change.
+            let pre = pre.mask_recycled_ts();
+            let post = post.mask_recycled_ts();
+            let pre_member = pre.and_then(|e| e.get_ava_refer(Attribute::Member));
+            let post_member = post.and_then(|e| e.get_ava_refer(Attribute::Member));
 
             match (pre_member, post_member) {
                 (Some(pre_m), Some(post_m)) => {
@@ -733,8 +738,8 @@ impl MemberOf {
                 (None, None) => {}
             };
 
-            let pre_dynmember = pre.get_ava_refer(Attribute::DynMember);
-            let post_dynmember = post.get_ava_refer(Attribute::DynMember);
+            let pre_dynmember = pre.and_then(|e| e.get_ava_refer(Attribute::DynMember));
+            let post_dynmember = post.and_then(|e| e.get_ava_refer(Attribute::DynMember));
 
             match (pre_dynmember, post_dynmember) {
                 (Some(pre_m), Some(post_m)) => {
